@@ -427,7 +427,7 @@ def main(tier, seed):
             items.append({"family": f, "preset": p})
     for part in pmap("vf.checks.c10", "work", items):
         run.absorb(part)
-    nrand = 600 if tier == "quick" else 6000
+    nrand = 600 if tier == "quick" else 30000
     ritems = [{"seed": seed * 1000 + i, "count": nrand // common.NPROC} for i in range(common.NPROC)]
     for part in pmap("vf.checks.c10", "work_random", ritems):
         run.absorb(part)
